@@ -685,9 +685,18 @@ func (g *gen) genPipeline(last bool) {
 			for _, o := range st.Outs {
 				if g.p.IsFileType(o.T.Base) {
 					pl.Retain = append(pl.Retain, &Expr{Kind: ERef, Call: c.Id, Path: []string{o.Name}})
-					break
+					if !g.cfg.RetainDup {
+						break
+					}
+					// several outputs of one call, some named twice (legal MRO)
+					if g.pick(2) == 0 {
+						pl.Retain = append(pl.Retain, &Expr{Kind: ERef, Call: c.Id, Path: []string{o.Name}})
+					}
 				}
 			}
+		}
+		if g.cfg.RetainDup && len(pl.Retain) > 1 && g.pick(2) == 0 {
+			pl.Retain[0], pl.Retain[len(pl.Retain)-1] = pl.Retain[len(pl.Retain)-1], pl.Retain[0]
 		}
 	}
 	// MRO rejects pipeline inputs that nothing uses.
